@@ -4,6 +4,7 @@ package main
 
 import (
 	"bytes"
+	"context"
 	"flag"
 	"fmt"
 	"io"
@@ -233,13 +234,22 @@ func runBinary(bin, dir string, env []string, args ...string) (stdout, stderr []
 	return
 }
 
+// binTimeout bounds one run of a real binary; a binary that does not exit is reported with
+// code -2 (the property promises an answer under every GOMAXPROCS).
+var binTimeout = 60 * time.Second
+
 func runBinaryOnce(bin, dir string, env []string, args ...string) (stdout, stderr []byte, code int) {
-	cmd := exec.Command(bin, args...)
+	ctx, cancel := context.WithTimeout(context.Background(), binTimeout)
+	defer cancel()
+	cmd := exec.CommandContext(ctx, bin, args...)
 	cmd.Dir = dir
 	cmd.Env = append(os.Environ(), env...)
 	var o, e bytes.Buffer
 	cmd.Stdout, cmd.Stderr = &o, &e
 	err := cmd.Run()
+	if ctx.Err() != nil {
+		return o.Bytes(), e.Bytes(), -2
+	}
 	if err != nil {
 		if ee, ok := err.(*exec.ExitError); ok {
 			code = ee.ExitCode()
